@@ -226,15 +226,16 @@ def stepLine (st : St) (ws : List String) : St × List String :=
   | ["conv", "whole", "digest"] => (initSt true true, ["conv whole digest"])
   | _ => if st.whole then stepWith wholeConv st ws else stepWith pairConv st ws
 
-/-- may `unwinding <ws>` run?  (harness: `Runner::unwind_safe`) -/
-def unwindSafe (st : St) (ws : List String) : Bool :=
+/-- may `unwinding <ws>` run?  (harness: `Runner::unwind_safe`): never `at` / `new` / `conv` / `iterscript`, and
+only when the op does not panic on the current state (decided on the op's own answer, evaluated once) -/
+def unwindPre (st : St) (ws : List String) : Bool :=
   match ws with
   | "at" :: _ => false
   | "new" :: _ => false
   | "conv" :: _ => false
   | "iterscript" :: _ => false
-  | _ => st.cur.isSome && !((stepLine st ws).2.contains "panic") && !((stepLine st ws).2.contains "bad-op")
+  | _ => st.cur.isSome
 
-def family : Family := withUnwind { σ := St, init := initSt false, step := stepLine } unwindSafe
+def family : Family := withUnwindOut { σ := St, init := initSt false, step := stepLine } unwindPre panicOrBad
 
 end Woodpile.Driver.SortedDequeFam
